@@ -816,7 +816,7 @@ def r115(rep: Report, ctx: Ctx) -> None:
     start / end of the body, the loop node, and the rewired parent."""
     rep.rule("R1.15", "loop extraction carries the boundary evidence over "
              "(dummy start / end, loop node, rewired parent, break filter)",
-             56)
+             50)
     from . import c07
     c07.loop_boundary_evidence(rep, ctx, "R1.15")
     c07.parent_rewiring(rep, ctx, "R1.15")
